@@ -82,7 +82,7 @@ def describe (s : St) (touched : Option Nat := none) : List String :=
     | some a => ["S a" ++ toString i ++ " rem=" ++ toString a.remaining])
   let live := w.liveChunks
   let liveLine := "L live=" ++ (if live.isEmpty then "-" else
-    ",".intercalate (live.map (fun k => "c" ++ toString k ++ ":" ++ toString (s.caps.getD k 0))))
+    ",".intercalate (live.map (fun k => "c" ++ toString k)))
   iovLines ++ sliceLines ++ arenaLines ++ [liveLine]
 
 def parseHexList (s : String) : Option (List (List UInt8)) :=
